@@ -173,6 +173,11 @@ type WaitGroup struct {
 
 // Add adds delta.
 func (w *WaitGroup) Add(delta int) {
+	if delta > 0 {
+		// raising the counter can disable a concurrent Wait: its order relative to other
+		// threads' operations matters, so it is a scheduling point (Done only enables)
+		vsched.Point("WaitGroup.Add")
+	}
 	w.n += delta
 	if w.n < 0 {
 		if vsched.Aborting() {
